@@ -34,6 +34,7 @@ w('''// C07 / C06: the generated engine methods StdEng.{Add,Sub,Mul,Div,Pow,Mod}
 //@   ensures [from_opts] err == nil ==> reuse.val == opt_reuse(opts.arr) && (isnil(reuse) <==> opt_reuse(opts.arr) == 0) && incr == opt_incr(opts.arr) && safe == opt_safe(opts.arr)
 //@   ensures [reuse_fits] err == nil && toReuse ==> len(asptr("tensor.Dense", reuse).Raw) / rsize(asptr("tensor.Dense", reuse).t) == prodInts(expShape, len(expShape)) && ((strict || same) ==> asptr("tensor.Dense", reuse).t == expType)
 //@   ensures [same_opt] err == nil ==> same == opt_same(opts.arr)
+//@   ensures [reuse_layout] err == nil && toReuse ==> (old(flatOK(asptr("tensor.Dense", opt_reuse(opts.arr)))) ==> flatOK(asptr("tensor.Dense", reuse))) && (incr ==> (asptr("tensor.Dense", reuse).AP.o & ColMajor) == old(asptr("tensor.Dense", opt_reuse(opts.arr)).AP.o & ColMajor)) && (!incr ==> (asptr("tensor.Dense", reuse).AP.o & ColMajor) == (o & ColMajor))
 //@   assigns asptr("tensor.Dense", opt_reuse(opts.arr)).AP
 
 //@ func tensor.Iterator.Reset
@@ -68,6 +69,21 @@ for OP, TYPES in ARITH_T.items():
     w('//@   ensures [b_kept] %s != %s ==> ' % (A, B) + " && ".join('(%s.t.Type == rtype("%s") ==> unchanged(%s))' % (A, T, V("b", T)) for T in TYPES))
     # the single-element increment path of the dispatch layer overwrites operand a (known finding on E.*Incr): excluded here
     w('//@   ensures [a_kept] (opt_reuse(opts.arr) != 0 || opt_safe(opts.arr)) ==> ' + " && ".join('(%s.t.Type == rtype("%s") && !(opt_incr(opts.arr) && len(%s) == 1) ==> unchanged(%s))' % (A, T, V("a", T), V("a", T)) for T in TYPES))
+    # delivered values for flat operands (the iterator paths only carry the kernels' summaries)
+    def binop_(op, T):
+        if op == "Mod" and T in FLOATS: return "op_Mod_" + T
+        if op == "Pow": return "op_Pow_" + T
+        return "op_" + op
+    flat2 = 'old(flatOK(%s) && flatOK(%s) && sameOrder(%s, %s))' % (A, B, A, B)
+    flat3 = 'old(flatOK(%s) && flatOK(%s) && flatOK(%s) && sameOrder(%s, %s) && sameOrder(%s, %s))' % (A, B, R, A, B, A, R)
+    for T in TYPES:
+        if OP == "Div" and T in INTS:
+            continue  # integer division by zero: the kernels' own rule (known findings) applies
+        f = binop_(OP, T)
+        av, bv, rv = V("a", T), V("b", T), V("r", T)
+        w('//@   ensures [unsafe_value_%s] err == nil && %s && %s.t.Type == rtype("%s") && %s != %s && opt_reuse(opts.arr) == 0 && !opt_safe(opts.arr) ==> (forall i :: 0 <= i && i < len(%s) ==> %s[i] == %s(old(%s[i]), old(%s[i])))' % (T, flat2, A, T, A, B, av, av, f, av, bv))
+        w('//@   ensures [reuse_value_%s] err == nil && %s && %s.t.Type == rtype("%s") && opt_reuse(opts.arr) != 0 && !opt_incr(opts.arr) ==> (forall i :: 0 <= i && i < len(%s) ==> %s[i] == %s(old(%s[i]), old(%s[i])))' % (T, flat3, A, T, av, rv, f, av, bv))
+        w('//@   ensures [incr_value_%s] err == nil && %s && %s.t.Type == rtype("%s") && opt_reuse(opts.arr) != 0 && opt_incr(opts.arr) && len(%s) != 1 ==> (forall i :: 0 <= i && i < len(%s) ==> %s[i] == op_Add(old(%s[i]), %s(old(%s[i]), old(%s[i]))))' % (T, flat3, A, T, av, av, rv, rv, f, av, bv))
     # operand b is in the frame because the dispatch methods declare it (they write b when a is a single element and b is
     # not, which same_len excludes here); that b keeps its content is the b_kept clauses
     w("//@   assigns " + ", ".join("whole(%s), whole(%s), whole(%s)" % (V("a", T), V("b", T), V("r", T)) for T in ALL) + ", %s.AP, gh(\"rawcopy\", %s)" % (R, R))
@@ -101,6 +117,7 @@ w("""
 //@   ensures [iter_a] err == nil && useIter ==> gh("it_pos", ait) == 0 && fresh(asptr("tensor.FlatIterator", ait)) && (forall p :: 0 <= p && p < it_len(ait) ==> 0 <= it_seq(ait, p) && it_seq(ait, p) < len(asptr("tensor.Dense", a).Raw) / rsize(asptr("tensor.Dense", a).t))
 //@   ensures [iter_reuse] err == nil && useIter && !isnil(reuse) ==> gh("it_pos", rit) == 0 && fresh(asptr("tensor.FlatIterator", rit)) && ait.val != rit.val && (forall p :: 0 <= p && p < it_len(rit) ==> 0 <= it_seq(rit, p) && it_seq(rit, p) < len(asptr("tensor.Dense", reuse).Raw) / rsize(asptr("tensor.Dense", reuse).t))
 //@   ensures [ok] err == nil
+//@   ensures [flat_when_possible] err == nil && useIter ==> !(flatOK(asptr("tensor.Dense", a)) && (isnil(reuse) || flatOK(asptr("tensor.Dense", reuse))))
 //@   binds dataA = asptr("tensor.Dense", a).Header
 //@   binds dataReuse = asptr("tensor.Dense", reuse).Header when !isnil(reuse)
 //@   assigns nothing
@@ -124,9 +141,19 @@ for OP, TYPES in UN_T.items():
     w('//@   ensures [reuse_returned] err == nil && opt_reuse(opts.arr) != 0 ==> retVal.val == opt_reuse(opts.arr)')
     w('//@   ensures [safe_fresh] err == nil && opt_reuse(opts.arr) == 0 && opt_safe(opts.arr) ==> fresh(asptr("tensor.Dense", retVal)) && fresh(asptr("tensor.Dense", retVal).Raw)')
     w('//@   ensures [a_kept] (opt_reuse(opts.arr) != 0 || opt_safe(opts.arr)) ==> ' + " && ".join('(%s.t.Type == rtype("%s") ==> unchanged(%s))' % (A, T, V("a", T)) for T in TYPES))
+    def unop_(op, T):
+        if op in ("Neg", "Square", "Cube"): return "un_" + op
+        return "un_%s_%s" % (op, T)
+    for T in TYPES:
+        g = unop_(OP, T)
+        av, rv = V("a", T), V("r", T)
+        w('//@   ensures [unsafe_value_%s] err == nil && old(flatOK(%s)) && %s.t.Type == rtype("%s") && opt_reuse(opts.arr) == 0 && !opt_safe(opts.arr) ==> (forall i :: 0 <= i && i < len(%s) ==> %s[i] == %s(old(%s[i])))' % (T, A, A, T, av, av, g, av))
+        w('//@   ensures [reuse_value_%s] err == nil && old(flatOK(%s) && flatOK(%s)) && %s.t.Type == rtype("%s") && opt_reuse(opts.arr) != 0 && !opt_incr(opts.arr) ==> (forall i :: 0 <= i && i < len(%s) ==> %s[i] == %s(old(%s[i])))' % (T, A, R, A, T, av, rv, g, av))
     w("//@   assigns " + ", ".join("whole(%s), whole(%s)" % (V("a", T), V("r", T)) for T in ALL) + ", %s.AP, gh(\"rawcopy\", %s)" % (R, R))
     w("")
 
+def one(T):  return {"bool": "true", "string": '"true"'}.get(T, "%s(1)" % T)
+def zero(T): return {"bool": "false", "string": '"false"'}.get(T, "%s(0)" % T)
 # ---------------- comparison methods ----------------
 ORD = INTS + FLOATS + ["string"]
 EQT = ["bool"] + INTS + ["uintptr"] + FLOATS + CPLX + ["string"]
@@ -140,7 +167,7 @@ w("""// a variadic list of tensors gives the iterator of the first one (trusted,
 """)
 import sys
 CMP = True
-for ops, types, name in (((["Gt", "Gte", "Lt", "Lte"], ORD, "eng_cmp_ord"), (["ElEq", "ElNe"], EQT, "eng_cmp_eq")) if CMP else ()):
+for ops, types, name in ((([o], (ORD if o in ("Gt", "Gte", "Lt", "Lte") else EQT), "eng_cmp_" + o.lower()) for o in ("Gt", "Gte", "Lt", "Lte", "ElEq", "ElNe")) if CMP else ()):
     w("//@ schema %s match tensor.StdEng.{Op}" % name)
     w("//@   where Op in " + " ".join(ops))
     w("//@   props C07 C11")
@@ -163,6 +190,17 @@ for ops, types, name in (((["Gt", "Gte", "Lt", "Lte"], ORD, "eng_cmp_ord"), (["E
         w('//@   ensures [b_kept_%s] %s.t.Type == rtype("%s") && %s != %s ==> unchanged(%s)' % (T, A, T, A, B, V("b", T)))
     for T in types:
         w('//@   ensures [a_kept_%s] %s.t.Type == rtype("%s") && (opt_reuse(opts.arr) != 0 || opt_safe(opts.arr)) ==> unchanged(%s)' % (T, A, T, V("a", T)))
+    CMPFN = {"Gt":"gogt","Gte":"goge","Lt":"golt","Lte":"gole","ElEq":"goeq","ElNe":"gone"}
+    def one(T):  return {"bool": "true", "string": '"true"'}.get(T, "%s(1)" % T)
+    def zero(T): return {"bool": "false", "string": '"false"'}.get(T, "%s(0)" % T)
+    flat2 = 'old(flatOK(%s) && flatOK(%s) && sameOrder(%s, %s))' % (A, B, A, B)
+    for OPN in ops:
+        f = CMPFN[OPN]
+        for T in types:
+            av, bv = V("a", T), V("b", T)
+            w('//@   ensures [%s_bool_value_%s] err == nil && %s && %s.t.Type == rtype("%s") && opt_reuse(opts.arr) == 0 && opt_safe(opts.arr) && !opt_same(opts.arr) ==> (forall i :: 0 <= i && i < len(%s) ==> tview("bool", asptr("tensor.Dense", retVal))[i] == %s(old(%s[i]), old(%s[i])))' % (OPN, T, flat2, A, T, av, f, av, bv))
+            if T != "bool":
+                w('//@   ensures [%s_unsafe_value_%s] err == nil && %s && %s.t.Type == rtype("%s") && %s != %s && opt_reuse(opts.arr) == 0 && !opt_safe(opts.arr) ==> (forall i :: 0 <= i && i < len(%s) ==> %s[i] == (%s(old(%s[i]), old(%s[i])) ? %s : %s))' % (OPN, T, flat2, A, T, A, B, av, av, f, av, bv, one(T), zero(T)))
     w("//@   config frame any")
     w("")
 
@@ -170,16 +208,17 @@ for ops, types, name in (((["Gt", "Gte", "Lt", "Lte"], ORD, "eng_cmp_ord"), (["E
 T_ = 'asptr("tensor.Dense", t)'
 w("""//@ func tensor.scalarDtypeCheck
 //@   trusted""")
-for T in ALL:
+for T in KINDS18:
     w('//@   ensures [%s] result == nil && asptr("tensor.Dense", a).t.Type == rtype("%s") ==> hastype(b, "%s")' % (T, T, T))
 w("//@   assigns nothing")
 w("")
+SIZEOF = {'bool': 1, 'int': 8, 'int8': 1, 'int16': 2, 'int32': 4, 'int64': 8, 'uint': 8, 'uint8': 1, 'uint16': 2, 'uint32': 4, 'uint64': 8, 'uintptr': 8, 'float32': 4, 'float64': 8, 'complex64': 8, 'complex128': 16, 'string': 16, 'unsafe.Pointer': 8}
 w("""// a scalar operand is boxed into a fresh one-element storage header (pooled; trusted)
 //@ func tensor.scalarToHeader
 //@   trusted
 //@   ensures [fresh] fresh(hdr) && fresh(hdr.Raw)""")
-for T in ALL:
-    w('//@   ensures [%s] hastype(a, "%s") ==> len(tview("%s", hdr)) == 1 && tview("%s", hdr)[0] == unbox("%s", a)' % (T, T, T, T, T))
+for T in KINDS18:
+    w('//@   ensures [%s] hastype(a, "%s") ==> len(tview("%s", hdr)) == 1 && len(hdr.Raw) == %d && tview("%s", hdr)[0] == unbox("%s", a)' % (T, T, T, SIZEOF[T], T, T))
 w("//@   assigns nothing")
 w("""
 //@ func tensor.freeScalar
@@ -209,12 +248,60 @@ for OP, TYPES in ARITH_T.items():
     w('//@   requires [wf_t] len(%s.old.strides) <= cap(%s.old.shape) && len(%s.Raw) / rsize(%s.t) == prodInts(%s.shape, len(%s.shape))' % ((T_,)*6))
     w('//@   requires [dims_t] forall i :: 0 <= i && i < len(%s.shape) ==> %s.shape[i] >= 0' % (T_, T_))
     # (a consequence of wf_t that needs induction over the shape: a product of non-negative extents is 1 only if all are 1)
-    w('//@   requires [single_element_shape] len(%s.Raw) / rsize(%s.t) == 1 ==> allOnes(%s.shape)' % (T_, T_, T_))
+    w('//@   requires [single_element_shape] (len(%s.Raw) / rsize(%s.t) == 1) <==> allOnes(%s.shape)' % (T_, T_, T_))
+    w('//@   requires [metadata_sep] %s.Raw.arr != %s.shape.arr && %s.Raw.arr != %s.strides.arr' % (T_, T_, T_, T_))
     w('//@   requires [reuse_distinct] opt_reuse(opts.arr) != 0 ==> %s != %s && %s.Raw.arr != %s.Raw.arr' % (R, T_, R, T_))
     w('//@   ensures [unsafe_returns_t] err == nil && opt_reuse(opts.arr) == 0 && !opt_safe(opts.arr) ==> retVal == t')
     w('//@   ensures [reuse_returned] err == nil && opt_reuse(opts.arr) != 0 ==> retVal.val == opt_reuse(opts.arr)')
     w('//@   ensures [safe_fresh] err == nil && opt_reuse(opts.arr) == 0 && opt_safe(opts.arr) ==> fresh(asptr("tensor.Dense", retVal)) && fresh(asptr("tensor.Dense", retVal).Raw)')
     w('//@   ensures [t_kept] (opt_reuse(opts.arr) != 0 || opt_safe(opts.arr)) ==> ' + " && ".join('(%s.t.Type == rtype("%s") && !(opt_incr(opts.arr) && len(%s) == 1) ==> unchanged(%s))' % (T_, T, V("t", T), V("t", T)) for T in TYPES))
+    def binop_(op, T):
+        if op == "Mod" and T in FLOATS: return "op_Mod_" + T
+        if op == "Pow": return "op_Pow_" + T
+        return "op_" + op
+    for T in TYPES:
+        if OP == "Div" and T in INTS:
+            continue  # integer division by zero: the kernels' own rule (known findings) applies
+        f = binop_(OP, T)
+        tv = V("t", T)
+        w('//@   ensures [unsafe_value_%s] err == nil && old(flatOK(%s)) && %s.t.Type == rtype("%s") && opt_reuse(opts.arr) == 0 && !opt_safe(opts.arr) ==> (forall i :: 0 <= i && i < len(%s) ==> %s[i] == (leftTensor ? %s(old(%s[i]), unbox("%s", s)) : %s(unbox("%s", s), old(%s[i]))))' % (T, T_, T_, T, tv, tv, f, tv, T, f, T, tv))
+    w("//@   config frame any")
+    w("")
+
+# ---------------- tensor-scalar comparison methods ----------------
+CMPS = {"Gt": ("gogt", ORD), "Gte": ("goge", ORD), "Lt": ("golt", ORD), "Lte": ("gole", ORD), "Eq": ("goeq", EQT), "Ne": ("gone", EQT)}
+for OPN, (f, types) in CMPS.items():
+    w("//@ schema eng_cmp_scalar_%s match tensor.StdEng.{Op}Scalar" % OPN.lower())
+    w("//@   where Op in %s" % OPN)
+    w("//@   props C07 C11")
+    w("//@   config devirt tensor.Tensor=*tensor.Dense,tensor.DenseTensor=*tensor.Dense")
+    for T in types:
+        w('//@   let %s = tview("%s", %s)' % (V("t", T), T, T_))
+    w('//@   requires [dyn] typeis(t, "*tensor.Dense") && t.val != 0')
+    w('//@   requires [engines] !isnil(%s.e)' % T_)
+    w('//@   requires [wf_t] len(%s.old.strides) <= cap(%s.old.shape) && len(%s.Raw) / rsize(%s.t) == prodInts(%s.shape, len(%s.shape))' % ((T_,)*6))
+    w('//@   requires [dims_t] forall i :: 0 <= i && i < len(%s.shape) ==> %s.shape[i] >= 0' % (T_, T_))
+    w('//@   requires [single_element_shape] (len(%s.Raw) / rsize(%s.t) == 1) <==> allOnes(%s.shape)' % (T_, T_, T_))
+    w('//@   requires [whole_elements] len(%s.Raw) %% rsize(%s.t) == 0' % (T_, T_))
+    w('//@   requires [metadata_sep] %s.Raw.arr != %s.shape.arr && %s.Raw.arr != %s.strides.arr' % (T_, T_, T_, T_))
+    w('//@   requires [reuse_distinct] opt_reuse(opts.arr) != 0 ==> %s != %s && %s.Raw.arr != %s.Raw.arr' % (R, T_, R, T_))
+    # a reuse tensor receives booleans unless same-type output is requested: it must then hold booleans (with any wider
+    # element type the tensor-scalar kernels run over the reuse tensor's byte length and index past the operand: observed,
+    # excluded here as caller misuse); a reuse tensor together with UseUnsafe is excluded for the same reason
+    w('//@   requires [reuse_mode] opt_reuse(opts.arr) != 0 ==> opt_safe(opts.arr) && (!opt_same(opts.arr) ==> %s.t.Type == rtype("bool"))' % R)
+    w('//@   ensures [unsafe_returns_t] err == nil && opt_reuse(opts.arr) == 0 && !opt_safe(opts.arr) ==> retVal == t')
+    w('//@   ensures [reuse_returned] err == nil && opt_reuse(opts.arr) != 0 ==> retVal.val == opt_reuse(opts.arr)')
+    w('//@   ensures [safe_fresh] err == nil && opt_reuse(opts.arr) == 0 && opt_safe(opts.arr) ==> fresh(asptr("tensor.Dense", retVal)) && fresh(asptr("tensor.Dense", retVal).Raw)')
+    w('//@   ensures [t_kept] (opt_reuse(opts.arr) != 0 || opt_safe(opts.arr)) ==> ' + " && ".join('(%s.t.Type == rtype("%s") ==> unchanged(%s))' % (T_, T, V("t", T)) for T in types))
+    for T in types:
+        tv = V("t", T)
+        if T != "bool":
+            cmpu = '(leftTensor ? %s(old(%s[i]), unbox("%s", s)) : %s(unbox("%s", s), old(%s[i])))' % (f, tv, T, f, T, tv)
+            w('//@   ensures [unsafe_value_%s] err == nil && old(flatOK(%s)) && %s.t.Type == rtype("%s") && opt_reuse(opts.arr) == 0 && !opt_safe(opts.arr) ==> (forall i :: 0 <= i && i < len(%s) ==> %s[i] == (%s ? %s : %s))' % (T, T_, T_, T, tv, tv, cmpu, one(T), zero(T)))
+        cmpv = '(leftTensor ? %s(old(%s[i]), unbox("%s", s)) : %s(unbox("%s", s), old(%s[i])))' % (f, tv, T, f, T, tv)
+        w('//@   ensures [bool_value_%s] err == nil && old(flatOK(%s)) && %s.t.Type == rtype("%s") && opt_reuse(opts.arr) == 0 && opt_safe(opts.arr) && !opt_same(opts.arr) ==> (forall i :: 0 <= i && i < len(%s) ==> tview("bool", asptr("tensor.Dense", retVal))[i] == %s)' % (T, T_, T_, T, tv, cmpv))
+        if T != "bool":
+            w('//@   ensures [same_value_%s] err == nil && old(flatOK(%s)) && %s.t.Type == rtype("%s") && opt_reuse(opts.arr) == 0 && opt_safe(opts.arr) && opt_same(opts.arr) ==> (forall i :: 0 <= i && i < len(%s) ==> tview("%s", asptr("tensor.Dense", retVal))[i] == (%s ? %s : %s))' % (T, T_, T_, T, tv, T, cmpv, one(T), zero(T)))
     w("//@   config frame any")
     w("")
 
